@@ -159,7 +159,7 @@ func gcBetweenRuns() {
 
 // RunFlow executes the general client scenario for one incarnation.
 func RunFlow(w *World, spec *RunSpec, tune func(f *Flow)) *Flow {
-	f := &Flow{W: w, byTopic: map[string]*Pub{}, byID: map[uint16]*Pub{}, reqByMarker: map[string]*Req{}, handed: map[uint32][]HandedRef{}, LastReadTime: map[int]time.Duration{}, Owned: map[uint16]int{}, OnlineConn: -1}
+	f := &Flow{W: w, byTopic: map[string]*Pub{}, byID: map[uint16]*Pub{}, reqByMarker: map[string]*Req{}, handed: map[uint32][]HandedRef{}, fsInFlight: map[uint64]*DiskOp{}, LastReadTime: map[int]time.Duration{}, Owned: map[uint16]int{}, OnlineConn: -1}
 	w.X = f
 	f.O = drawFlowOpts(w.Tape, spec.Thorough)
 	if tune != nil {
@@ -167,6 +167,9 @@ func RunFlow(w *World, spec *RunSpec, tune func(f *Flow)) *Flow {
 	}
 	w.Disk = NewDisk(w)
 	w.Disk.Opts = f.O.Disk
+	if f.O.FSStore {
+		f.FS = NewSimFS(w)
+	}
 	w.Broker = NewBroker(w)
 	w.Broker.Opts.SubCode = func(filter string, q byte) byte {
 		if strings.HasSuffix(filter, "/fail") {
@@ -200,6 +203,9 @@ func RunFlow(w *World, spec *RunSpec, tune func(f *Flow)) *Flow {
 		if g > 1 {
 			if f.BetweenGens != nil {
 				f.BetweenGens(f, g)
+				if f.FS != nil {
+					f.pushMirror()
+				}
 			}
 			f.prepareAdoption()
 			w.StopParam = -1
@@ -243,6 +249,15 @@ func (f *Flow) runGeneration(adopt bool) {
 		verifsim.SetSelect(o.SelectMode, uint64(w.Tape.rng)|1)
 		mqtt.VerifSetReadBufSize(o.ReadBuf)
 		w.Disk.Attach(s)
+		var store mqtt.Persistence = w.Disk
+		if f.FS != nil {
+			f.FS.Attach(s)
+			f.FS.StopCall = -1
+			if adopt {
+				f.armFSStop()
+			}
+			store = &obsStore{f: f, P: mqtt.FileSystem(fsDir), fs: f.FS}
+		}
 		s.Env = f.env
 		if o.NoTick {
 			s.tickW = 0
@@ -264,11 +279,11 @@ func (f *Flow) runGeneration(adopt bool) {
 			var c *mqtt.Client
 			var err error
 			if !adopt {
-				c, err = mqtt.InitSession(o.ClientID, w.Disk, f.config(s))
+				c, err = mqtt.InitSession(o.ClientID, store, f.config(s))
 			} else {
 				var warn []error
 				f.adopted[w.Gen] = true
-				c, warn, err = mqtt.AdoptSession(w.Disk, f.config(s))
+				c, warn, err = mqtt.AdoptSession(store, f.config(s))
 				f.AdoptWarn[w.Gen] = warn
 				if err != nil && !s.dead {
 					f.AdoptFatal = err
@@ -283,6 +298,9 @@ func (f *Flow) runGeneration(adopt bool) {
 			if w.StopBase == 0 || !adopt {
 				// stop points count from the end of InitSession
 				w.StopBase = len(w.Disk.Log)
+			}
+			if f.FS != nil && !adopt && err == nil {
+				f.armFSStop()
 			}
 			w.FaultsOff = faultsOff
 			if err != nil {
@@ -307,6 +325,21 @@ func (f *Flow) runGeneration(adopt bool) {
 	})
 	if f.S != nil && f.S.CapHit && f.QStartStep == 0 {
 		w.Inconcl = "step cap hit in the fault phase"
+	}
+}
+
+// armFSStop places the kill of this incarnation at a drawn system call: at its
+// entry, at its exit or inside the data write.
+func (f *Flow) armFSStop() {
+	w := f.W
+	o := &f.O
+	if w.Gen >= o.Generations || o.FSStopCalls == 0 {
+		return
+	}
+	f.FS.StopCall = len(f.FS.Calls) + w.Tape.Draw("fs-stop-call", o.FSStopCalls)
+	f.FS.StopPhase = w.Tape.Pick("fs-stop-phase", []int{2, 2, 3})
+	if f.FS.StopPhase == 2 {
+		f.FS.StopPhase = 2 + w.Tape.Draw("fs-stop-byte", 80)
 	}
 }
 
@@ -512,6 +545,14 @@ func init() {
 			f.O.StopW = 1
 			f.O.FaultFreeAfterStop = false
 		}, "resumed_after_restart")})
+	register("C02", Family{Name: "fs-store", Weight: 2, Run: flowFamily(func(f *Flow) {
+		restartTune(-1)(f)
+		o := &f.O
+		o.FSStore = true
+		o.FSStopCalls = 60 + f.W.Tape.Draw("fs-stop-range", 200)
+		o.Disk = DiskOpts{}
+		o.BigPayload = 0
+	}, "resumed_after_restart", "stop_inside_write")})
 	register("C03", Family{Name: "stops", Weight: 1, Sweep: true, Run: flowFamily(restartTune(1000), "resumed_after_restart", "pubrel_resent")})
 	register("C03", Family{Name: "flow", Weight: 1, Run: flowFamily(func(f *Flow) {
 		f.O.Q2 = 1000
